@@ -20,6 +20,10 @@ CHECKS = {
    text="Every axis triple min<=default<=max from an 11-value landmark menu (286 triples incl. degenerate and +-32768 extremes) x every valid avar map with <=2 (thorough 3) interior knots x user values at every landmark, midpoint and knot pre-image +-2 raw units (thorough: every 2.14 grid value x 4 sub-unit offsets on unit axes, ~1.3e5 values per map) is normalised by FvarTable::normalize on independently encoded fvar/avar tables and compared with exact rational arithmetic within the tolerance the property states; exactness at min/default/max, range, monotonicity and tuple-length rejection are checked; all 65536 F2Dot14 values, all 16.16 values in [-2,2) and all f32 with <=17 fractional bits in (-4,4) go through the fixed-point conversions.",
    note="Trusted: exact i128 rational evaluator of the OpenType normalisation text; enumerated avar maps are valid and monotone; one axis per font except the tuple-length/independence cases.",
    technique="exhaustive enumeration of axes x avar maps x coordinates against exact rational arithmetic"),
+ "C03": dict(engine="mcx-bfs", cat="model_checking",
+   text="For six subject fonts (a synthetic variable font whose GSUB carries FeatureVariations, Noto Sans Devanagari, Noto Naskh Arabic, an sbix font under two image filters, a symbol-encoded font) BFS to a fixpoint over all cache states reachable by any history of calls from a per-font alphabet of 7-18 API calls chosen to collide on cache keys; in every state every call is executed on a fresh replay and must return what it returns on a freshly loaded font. State merging uses hook H3 (digest of every mutable slot) and is cross-validated by unmerged exploration of all histories to depth 3 (thorough 4). subset / whole_font / instance / WOFF / WOFF2 decoding outputs are compared across three in-process repetitions and a second process.",
+   note="Trusted: H3 digest covers all mutable Font state (cross-validated); alphabet-relative: histories consist of the listed calls; observables compared through Debug renderings.",
+   technique="explicit-state BFS to fixpoint over Font cache states with a canonical fingerprint; differential oracle against a fresh object"),
 }
 
 NOT_YET = {
